@@ -10,7 +10,7 @@ from hypothesis import strategies as st
 from vf import frames
 
 NUM = ["x", "z", "center(x)", "scale(z)", "standardize(x)", "bs(x, df=4)", "bs(z, df=5, degree=2, intercept=True)",
-       "poly(x, 3)", "poly(z, 2, raw=True)", "np.log(p)", "I(x + z)", "{x * 2}", "scale(np.log(p))", "center(scale(z))",
+       "poly(x, 3)", "poly(x, 4)", "poly(z, 2, raw=True)", "np.log(p)", "I(x + z)", "{x * 2}", "scale(np.log(p))", "center(scale(z))",
        "I(center(x) ** 2)", "ustat(z)", "np.abs(z)", "scale(x)", "I(scale(x) + z)", "np.add(center(z), x)", "bq"]
 NUM_POINTWISE = ["x", "z", "np.log(p)", "I(x + z)", "{x * 2}", "np.abs(z)", "I(x ** 2)"]
 CAT = ["f", "g", "h", "u", "v", "C(k)", "C(k, levels=lv)", "C(h)", "T(g, 'g1')", "S(g)", "S(f, 'a')", "C(g, Treatment('g3'))", "C(u, Sum)",
